@@ -232,8 +232,8 @@ impl<R: AsyncRead + AsyncSeek + Unpin + Send + 'static> AsyncArchiveReader<R> {
     /// Read data at a specific offset with timeout and resource protection
     pub async fn read_at(&self, offset: u64, buffer: &mut [u8]) -> Result<usize> {
         // Acquire operation permit
+        // no operation has been started yet: nothing to cancel in the metrics
         let _permit = self.active_operations.acquire().await.map_err(|_| {
-            self.metrics.record_operation_cancelled();
             Error::resource_exhaustion("Failed to acquire operation permit - system overloaded")
         })?;
 
